@@ -549,8 +549,35 @@ int main(int argc, char **argv)
                 }
             }
         }
+        // ---- named matrices of order 2..10: Pascal (symmetric positive definite, determinant 1, condition number ~16^n),
+        //      Wilkinson's growth matrix (pivot growth 2^(n-1) under partial pivoting), the second-difference matrix (SPD, tridiagonal)
+        //      and a Vandermonde matrix on 1..n (general, ill-conditioned); all with integer entries, so the classification stays exact
+        for (int n = 2; n <= 10; ++n)
+        {
+            if (!R.shard.mine(item++)) { continue; }
+            Mat P, W, T, V;
+            for (Mat *M : {&P, &W, &T, &V}) { M->n = n; M->rs.assign((size_t)n, 0); M->cs.assign((size_t)n, 0); M->e.assign((size_t)(n * n), 0); }
+            for (int i = 0; i < n; ++i)
+            {
+                for (int j = 0; j < n; ++j)
+                {
+                    P.e[(size_t)(i * n + j)] = (i == 0 || j == 0) ? 1 : P.e[(size_t)((i - 1) * n + j)] + P.e[(size_t)(i * n + j - 1)];
+                    W.e[(size_t)(i * n + j)] = i == j ? 1 : (j == n - 1 ? 1 : (j < i ? -1 : 0));
+                    T.e[(size_t)(i * n + j)] = i == j ? 2 : ((i - j == 1 || j - i == 1) ? -1 : 0);
+                }
+            }
+            bool vand = n <= 7; // (i+1)^j stays below 2^53 / n for n <= 7
+            if (vand) { for (int i = 0; i < n; ++i) { long p = 1; for (int j = 0; j < n; ++j) { V.e[(size_t)(i * n + j)] = p; p *= (i + 1); } } }
+            auto rhs = rhs_set(n, false);
+            with_scalings(P, true, true, [&](const Mat &X) { check_sym(X, rhs, false); check_sym(X, rhs, true); });
+            with_scalings(T, true, true, [&](const Mat &X) { check_sym(X, rhs, false); check_sym(X, rhs, true); });
+            with_scalings(P, false, n <= 6, [&](const Mat &X) { check_plu(X, rhs); });
+            with_scalings(W, false, n <= 6, [&](const Mat &X) { check_plu(X, rhs); });
+            with_scalings(T, false, n <= 6, [&](const Mat &X) { check_plu(X, rhs); });
+            if (vand) { check_plu(V, rhs); }
+        }
         uint64_t e1 = n_eval, t1 = n_nt;
-        R.part(std::string("LU with partial pivoting: ALL matrices of order 1..3 over {-2..2} (5^9 for n=3), order 4 over ") + (thorough ? "{-1,0,1} (3^16)" : "{0,1} (2^16)") + ", P*L*U families of order 5" + (thorough ? " and 6" : "") + " under every row permutation; duplicated rows with pivot values 1..100; uniform scalings 2^+-" + std::to_string(2 * UNISCALE) + "; row/column scalings by 2^+-20 and 2^+-" + std::to_string(BIGSCALE) + "; right-hand sides: unit vectors and all vectors over {-1,0,1}", e1, t1);
+        R.part(std::string("LU with partial pivoting: ALL matrices of order 1..3 over {-2..2} (5^9 for n=3), order 4 over ") + (thorough ? "{-1,0,1} (3^16)" : "{0,1} (2^16)") + ", P*L*U families of order 5" + (thorough ? " and 6" : "") + " under every row permutation; duplicated rows with pivot values 1..100; Pascal, Wilkinson growth, second-difference and Vandermonde matrices of order 2..10; uniform scalings 2^+-" + std::to_string(2 * UNISCALE) + "; row/column scalings by 2^+-20 and 2^+-" + std::to_string(BIGSCALE) + "; right-hand sides: unit vectors and all vectors over {-1,0,1}", e1, t1);
         // ---- symmetric matrices
         n_eval = n_nt = 0;
         for (int n = 1; n <= 4; ++n)
